@@ -10,7 +10,7 @@ import struct as _st
 from sim import gen
 from sim.core import Discard, Violation
 from sim.observe import observe
-from sim.simstream import SimStream
+from sim.simstream import PipeLikeSimStream, SimStream
 
 ID = "C08"
 LEVEL = "fault_enumeration"
@@ -108,7 +108,7 @@ def gen_case(rng: random.Random, tier: str):
     elif r < 0.13:
         root_sel = {"k": "array", "name": rng.choice(["uint16", "int32", "int24", "char", "char", "char", "wchar", "uint8", "uleb128"]), "n": rng.choice([1, 2, 3, 4, 8, 9])}
     return {"cfg": cfg, "defs": defs, "eof_tagged": g.has_eof and root_sel is None, "data_seed": rng.getrandbits(32),
-            "data": None, "multi_seed": rng.getrandbits(32), "root_sel": root_sel}
+            "data": None, "multi_seed": rng.getrandbits(32), "root_sel": root_sel, "pipe_like": rng.random() < 0.3}
 
 
 def _outcome(root, stream, obs=None):
@@ -182,7 +182,11 @@ def run_case(case, stats):
         A = bytes.fromhex(case["data"])
 
     # baseline on a fault-free SimStream
-    base = SimStream(A, track=True)
+    # stream flavour of this case: an ordinary seekable object, or one that says seekable() == False (pipe-like)
+    Stream = PipeLikeSimStream if case.get("pipe_like") else SimStream
+    if case.get("pipe_like"):
+        stats.count("probe.stream_announces_not_seekable")
+    base = Stream(A, track=True)
     try:
         V = obs(root(base))
     except Exception:
@@ -277,7 +281,7 @@ def run_case(case, stats):
         plans = [case["only_plan"]]
 
     for plan in plans:
-        st = SimStream(A, faults=plan, track=True)
+        st = Stream(A, faults=plan, track=True)
         out = _outcome(root, st, obs)
         stats.count("evaluations")
         stats.count("steps", len(st.log))
